@@ -58,6 +58,8 @@ def run(ctx):
     p14(ctx, R)
     p15(ctx, R)
     p16(ctx, R)
+    from .p17 import p17
+    p17(ctx, R)
     from .c03 import g9, t3p
     from .geval import with_g11
     with_g11(ctx, R, [g2, g4, g5, g6, g9])
